@@ -426,6 +426,23 @@ pub fn c03(rec: &mut Rec, rng: &mut Rng, thorough: bool) {
             }
         }
     }
+    // URI path extraction on absolute-form URIs with non-ASCII, empty and odd authorities
+    rec.case("abs-path-odd-uris");
+    let pieces: [&str; 12] = ["http://", "http:/", "/", "//", "\u{e9}", "\u{20ac}", "\u{1F600}", "a", ":", "%", "h", "."];
+    for _ in 0..(if thorough { 40000 } else { 3000 }) {
+        let mut u = String::new();
+        if rng.chance(2, 3) {
+            u.push_str("http://");
+        }
+        for _ in 0..rng.below(7) {
+            let piece: &&str = rng.pick(&pieces[..]);
+            u.push_str(piece);
+        }
+        if !u.is_empty() {
+            rec.nontrivial_op();
+            crate::suites::tokens::abs_path_case(rec, u.as_bytes(), true);
+        }
+    }
     // long op sequences on one connection, continuing after every kind of error
     let n_seq = if thorough { 6000 } else { 250 };
     for _ in 0..n_seq {
@@ -714,7 +731,8 @@ fn transcript(d: &mut ConnDriver, rec: &mut Rec, chunks: &[Vec<u8>]) -> Vec<Stri
             t.push(r);
         }
         for x in d.popall(rec) {
-            t.push(x.text_nofiles);
+            // with the descriptors it carries (none arrive with the continuation)
+            t.push(x.text);
         }
         let w = drain_writes(d, rec);
         t.push(format!("w={}", hx(&w)));
@@ -751,7 +769,9 @@ pub fn c11(rec: &mut Rec, rng: &mut Rng, thorough: bool) {
         let cuts = gen::cuts_r(rng, &a);
         let mut errored = false;
         'a: for ch in gen::split_at_cuts(&a, &cuts) {
-            for r in d.recv(rec, &ch, 0) {
+            // descriptors may arrive with the rejected input: they must not survive the error either
+            let nf = if rng.chance(1, 4) { rng.range(1, 3) } else { 0 };
+            for r in d.recv(rec, &ch, nf) {
                 if r.starts_with("parse(") {
                     errored = true;
                     break 'a;
